@@ -2601,10 +2601,11 @@ class Recipe:
                         flows["in"] += (sum(map(helper, step.to[1].contents.items())) -
                                         sum(map(helper, step.to[0].contents.items())))
                 if isinstance(step.to[0], Plate) and step.to[0].name == container.name:
+                    vfunc = np.vectorize(plate_helper, otypes=[float])
                     if step.trash:
-                        flows["out"] += sum(map(helper, step.trash.items()))
+                        # what each well lost, not the total discarded from the whole plate
+                        flows["out"] += vfunc(step.to[0].wells) - vfunc(step.to[1].wells)
                     else:
-                        vfunc = np.vectorize(plate_helper, otypes=[float])
                         flows["in"] += vfunc(step.to[1].wells) - vfunc(step.to[0].wells)
                 if isinstance(step.frm[0], Container) and step.frm[0].name == container.name:
                     flows["out"] += (sum(map(helper, step.frm[0].contents.items())) -
